@@ -520,9 +520,34 @@ def db_command(rng):
     return 'DBE SETATT %d BOARD %d VALUE %g' % (rng.randrange(17), rng.randrange(1, 5), rng.randrange(64) / 2)
 
 
+def db_status_scenario(rng):
+    """one board made unreachable / sensor-less / unavailable, then written and queried"""
+    b = rng.randrange(1, 5)
+    st = rng.choice(['1', '1', '1', '2', '-1', '7'])
+    lines = ['DBE SETSTATUS BOARD %d VALUE %s' % (b, st)]
+    for _ in range(rng.randrange(1, 5)):
+        lines.append(rng.choice([
+            'DBE SETATT %d BOARD %d VALUE %g' % (rng.randrange(17), b, rng.randrange(64) / 2),
+            'DBE SETAMP %d BOARD %d VALUE %d' % (rng.randrange(1, 11), b, rng.randrange(2)),
+            'DBE SETEQ %d BOARD %d VALUE %d' % (rng.randrange(1, 11), b, rng.randrange(2)),
+            'DBE SETBPF %s BOARD %d VALUE %d' % (rng.choice(['1a', '1b', '2', '10']), b, rng.randrange(2)),
+            'DBE MODE BOARD %d %s' % (b, rng.choice(DB_MODES)),
+            'DBE SETALLMODE %s' % rng.choice(DB_MODES), 'DBE STOREALLMODE %s' % rng.choice(DB_MODES),
+            'DBE SETDBEATT %s %s' % (rng.choice(DB_OUTPUTS), rng.choice(['+3', '-3', '7.5'])),
+            'DBE SETDBEAMP %s %d' % (rng.choice(DB_OUTPUTS), rng.randrange(2)),
+            'DBE GETDBEATT %s' % rng.choice(DB_OUTPUTS), 'DBE GETDBEEQ %s' % rng.choice(DB_OUTPUTS),
+            'DBE GETSTATUS BOARD %d' % b, 'DBE GETCOMP BOARD %d' % b, 'DBE ReadDIAG BOARD %d' % b,
+            'DBE GETFIRM BOARD %d' % b, 'DBE GETCFG', 'DBE ReadALLDIAG']))
+    if rng.random() < 0.5:
+        lines.append('DBE SETSTATUS BOARD %d VALUE 0' % b)
+    return ''.join(x + '\r\n' for x in lines)
+
+
 def db_stream(rng, ncmd, corrupt=0.12):
     out = ''
     for _ in range(ncmd):
+        if rng.random() < 0.12:
+            out += db_status_scenario(rng)
         line = db_command(rng)
         r = rng.random()
         if r < corrupt:
@@ -727,6 +752,24 @@ def ms_frame(rng, d):
     return hdr + body + closer
 
 
+def ms_clean_scenario(rng, d):
+    """past and future-dated positions on one servo, then clean, then read back"""
+    a = rng.randrange(4)
+    axes = MS_AXES[a]
+    now = d.now()
+    for _ in range(rng.randrange(1, 4)):
+        ts = now + rng.choice([-1, 1, 1, 1]) * rng.randrange(1, 10 ** 8)
+        vals = [str(rng.randrange(-100, 100)) for _ in range(axes + 2)]
+        d.feed('#setpos:0=%d,%d,%s\r\n' % (a, ts, ','.join(vals)))
+    if rng.random() < 0.5:
+        d.tick(rng.choice([0.5, 3.0, 20.0]))
+    d.feed('#getpos:1=%d\r\n' % a)
+    d.feed('#clean:2=%d\r\n' % a)
+    d.feed('#getpos:3=%d\r\n' % a)
+    if rng.random() < 0.5:
+        d.feed('#clean:4=%d\r\n#getstatus:5=%d\r\n' % (a, a))
+
+
 def ms_history(rng, nframes, corrupt=0.12):
     """build and run one MSCU history; returns the driver"""
     d = Mscu(rng)
@@ -745,3 +788,613 @@ def ms_history(rng, nframes, corrupt=0.12):
         d.feed(f)
     d.close()
     return d
+
+
+# ---------------------------------------------------------------------------
+# uniform view of the three simulators for the parts
+
+class Sim:
+    name = ''
+    imports = ''
+    ctype = ''
+    term = '\r\n'
+
+    def __init__(self, rng, clock_from=None):
+        raise NotImplementedError
+
+
+class TPSim:
+    name = 'totalpower'
+    imports = 'From DS Require Import Model.SmcBase Model.SmcTotalpower Corr.SmcTotalpowerCorr.'
+    ctype = 'tp_case'
+    term = '\n'
+    safe_pieces = ['?', 'V', 'R', 'E 1 2', 'E 1', 'A 1 B', 'A 1 B 3', 'I B', 'X 1 2', 'N', 'S', 'M', 'Z', 'T 1',
+                   'A 99 B 1 1', 'I Q 1 1', 'N 7', 'foo', 'pause x']
+    safe_alphabet = list('?EVR 0123456789xyz,.-\t')
+    probe = '?\n'
+    queries = ['?', 'V', 'R', 'E 12 5', 'E 0 0', '? ', ' ?', 'R 1 2', 'V 3']
+    non_start = ['\n', '\r']
+
+    def __init__(self, rng, like=None):
+        self.channels = like.channels if like else rng.choice([4, 14, 1, 2])
+        self.d = TotalPower(self.channels, rng)
+        if like:
+            self.d.clock.t = like.d.clock.t
+        self.system = self.d.system
+        self.data = ''
+        self.outs = []
+
+    def feed(self, data):
+        o = self.d.feed(data)
+        self.data += data
+        self.outs += o
+        return o
+
+    def sync_clock(self, other):
+        self.d.clock.t = other.d.clock.t
+
+    def snap(self):
+        return self.d.snapshot()
+
+    def case_term(self):
+        d = self.d
+        tbl = int_table(tp_tokens(self.data))
+        return ('TPCase %s %s %s %s %s %s %s'
+                % (natlit(self.channels), int_table_term(tbl),
+                   coq_list('(%s, %s, %s)' % tuple(zlit(x) for x in t) for t in d.tms),
+                   zlist(d.rnds), zs(self.data), coq_list(outcome_term(o) for o in self.outs),
+                   d.snapshot_term()))
+
+    def in_domain(self):
+        return True
+
+    def stream(self, rng, n, corrupt):
+        return tp_stream(rng, self.channels, n, corrupt)
+
+    def close(self):
+        pass
+
+
+class DBSim:
+    name = 'dbesm'
+    imports = 'From DS Require Import Model.SmcBase Model.SmcDbesm Corr.SmcDbesmCorr.'
+    ctype = 'db_case'
+    term = '\r\n'
+    safe_pieces = ['DBE GETCFG', 'DBE GETSTATUS BOARD 1', 'DBE SETATT 1 BOARD', 'DBE SETSTATUS BOARD 1', 'DBE MODE BOARD',
+                   'DBE SETA', 'DB', 'FBCB X', 'DBE GETCOMP BOARD 9', 'DBE ReadALLDIAG', 'DBE SETATT 99 BOARD 1 VALUE 1',
+                   'DBE SETAMP 1 BOARD 1 VALUE 7', 'DBE DELETEFILE nofile', 'DBE MODE BOARD 1 nomode']
+    safe_alphabet = list('DBEGTCFS 0123\r\t.')
+    probe = 'DBE GETCFG\r\n'
+    queries = (['DBE GETSTATUS BOARD %d' % b for b in (1, 2, 3, 4)] + ['DBE GETCOMP BOARD %d' % b for b in (1, 2, 3, 4)]
+               + ['DBE ReadDIAG BOARD %d' % b for b in (1, 2, 3, 4)] + ['DBE GETFIRM BOARD %d' % b for b in (1, 2, 3, 4)]
+               + ['DBE GETCFG', 'DBE ReadALLDIAG']
+               + ['DBE GETDBE%s %s' % (r, o) for r in ('ATT', 'AMP', 'EQ', 'BPF')
+                  for o in ('1_DBBC2', 'prova', 'SARDA_01', 'prova2', 'Space_Debris', 'SARDA_14')])
+    non_start = ['\n']
+
+    def __init__(self, rng, like=None):
+        self.d = Dbesm(rng)
+        self.system = self.d.system
+        self.data = ''
+        self.outs = []
+
+    def feed(self, data):
+        o = self.d.feed(data)
+        self.data += data
+        self.outs += o
+        return o
+
+    def sync_clock(self, other):
+        pass
+
+    def snap(self):
+        return (self.d.boards_term(), self.d.modes_term())
+
+    def case_term(self):
+        d = self.d
+        toks = db_tokens(self.data)
+        return ('DBCase %s %s %s %s %s %s %s %s'
+                % (coq_list(d.boards0), coq_list(zs(m) for m in d.modes0), int_table_term(int_table(toks)),
+                   fres_table_term(fres_table(toks)), zs(self.data), coq_list(outcome_term(o) for o in self.outs),
+                   d.boards_term(), d.modes_term()))
+
+    def in_domain(self):
+        return True
+
+    def stream(self, rng, n, corrupt):
+        return db_stream(rng, n, corrupt)
+
+    def close(self):
+        pass
+
+
+class MSSim:
+    name = 'mscu'
+    imports = 'From DS Require Import Model.SmcBase Model.SmcMscu Corr.SmcMscuCorr.'
+    ctype = 'ms_case'
+    term = '\r\n'
+    safe_pieces = ['#getpos:0=1', '?getstatus:0=', '#setpos:0=1,0,0', '@stow:0', '!getappstatus:3=2', '#getspar:1=0,1250,0',
+                   '#foo:0=1', '#getpos:x=1', '#getpos:0=9', 'getpos:0=1', '#', '#=', '#:=,']
+    safe_alphabet = list('gtao:=,0123#?!@ \t.x-')
+    probe = '#getstatus:7=1\r\n'
+    queries = (['#getpos:%d=%d' % (n, a) for a in range(4) for n in (0, 42)]
+               + ['?getstatus:%d=%d' % (n, a) for a in range(4) for n in (0, 3)]
+               + ['!getappstatus:0=%d' % a for a in range(4)]
+               + ['@getspar:0=%d,1250,0' % a for a in range(4)] + ['#getspar:5=1,1240,0', '#getspar:5=2,7,7', '#getspar:1=3'])
+    non_start = [chr(c) for c in range(256) if chr(c) not in '#!?@']
+
+    def __init__(self, rng, like=None):
+        self.d = Mscu(rng)
+        if like:
+            raise NotImplementedError
+        self.system = self.d.system
+
+    @property
+    def outs(self):
+        return self.d.outs
+
+    def feed(self, data):
+        n = len(self.d.outs)
+        self.d.feed(data)
+        return self.d.outs[n:]
+
+    def sync_clock(self, other):
+        pass
+
+    def snap(self):
+        return self.d.final_term()
+
+    def case_term(self):
+        return self.d.case_term()
+
+    def in_domain(self):
+        return self.d.in_domain()
+
+    def close(self):
+        self.d.close()
+
+
+SIMS = {'totalpower': TPSim, 'dbesm': DBSim, 'mscu': MSSim}
+
+
+def make_history(rng, S, kind, n):
+    """run one history of the given kind on a fresh instance of S; returns the Sim"""
+    s = S(rng)
+    if S is MSSim:
+        d = s.d
+        for _ in range(n):
+            r = rng.random()
+            if r < 0.25:
+                d.tick(rng.choice([0.125, 1.0, 3.5, 60.0, 0.5, 100.0, 0.0]))
+            elif r < 0.28:
+                d.set_nak(rng.random() < 0.6)
+            if kind != 'framing' and rng.random() < 0.12:
+                ms_clean_scenario(rng, d)
+            if kind == 'framing':
+                f = framing_piece(rng, S)
+            else:
+                f = ms_frame(rng, d)
+                r = rng.random()
+                if r < 0.12:
+                    f = mutate(rng, f, MS_ALPHABET)
+                elif r < 0.16:
+                    f = garbage(rng, rng.randrange(1, 10)) + rng.choice(['', '\r\n', '#', '\n\r'])
+            d.feed(f)
+        if kind == 'queries':
+            d.feed(rng.choice(['\r\n', '\n\r']))
+            qs = list(S.queries)
+            rng.shuffle(qs)
+            for q in qs[:10]:
+                d.feed(q + rng.choice(['\r\n', '\n\r']))
+        return s
+    if kind == 'framing':
+        data = ''.join(framing_piece(rng, S) for _ in range(n))
+    else:
+        data = s.stream(rng, n, 0.12)
+    if kind == 'queries':
+        data += S.term
+        qs = list(S.queries)
+        rng.shuffle(qs)
+        data += ''.join(q + S.term for q in qs[:10])
+    s.feed(data)
+    return s
+
+
+def framing_piece(rng, S):
+    """truncated / corrupted / nested-header material for the framers"""
+    r = rng.random()
+    if S is MSSim:
+        base = rng.choice(S.safe_pieces + S.queries)
+        closer = rng.choice(['\r\n', '\n\r', '\r\n', '', '\r', '\n', '\r\r\n', '\n\n\r'])
+    else:
+        base = rng.choice(S.safe_pieces + S.queries)
+        closer = rng.choice([S.term, S.term, '', '\r', '\n', '\r\n', '\n\r'])
+    if r < 0.25:
+        base = base[:rng.randrange(len(base) + 1)]
+    elif r < 0.45:
+        base = mutate(rng, base, S.safe_alphabet + ['\r', '\n'])
+    elif r < 0.6:
+        base = garbage(rng, rng.randrange(0, 12))
+    elif r < 0.7:
+        base = base[:rng.randrange(len(base) + 1)] + rng.choice(S.safe_pieces)     # nested start
+    return base + closer
+
+
+def run_corr(ctx, S, kind, n_quick, n_thorough, maxlen=20):
+    """generate histories of one kind, run them on the implementation, let Coq compare with the model"""
+    rng = ctx.rng
+    cases = []
+    n = ctx.n(n_quick, n_thorough)
+    skipped = 0
+    for _ in range(n):
+        s = make_history(rng, S, kind, rng.randrange(1, maxlen))
+        s.close()
+        if not s.in_domain():
+            skipped += 1
+            ctx.count('%s:%s:outside-modelled-domain' % (S.name, kind))
+            continue
+        cases.append(s.case_term())
+        classes = set(o[0] for o in s.outs)
+        for k in classes:
+            ctx.count('%s:%s:outcome-%s' % (S.name, kind, k))
+        if classes & {'R', 'V', 'X', 'F'}:
+            ctx.nontriv((S.name, kind, tuple(s.outs)))
+    for c in cases[:1]:
+        ctx.sample(c[:600])
+    shard = {'mscu': 12, 'dbesm': 16, 'totalpower': 25}[S.name]
+    return ctx.run_cases('%s_%s' % (S.name, kind), S.imports, S.ctype, 'ok', cases, show='show', shard=shard)
+
+
+# ---------------------------------------------------------------------------
+# property-level oracles on the implementation
+
+def hexs(s):
+    return s.encode('latin-1').hex()
+
+
+def safe_history(rng, S, n):
+    """bytes that cannot change the device state: queries, refused and truncated commands, garbage
+    over an alphabet from which no state-changing command can be spelled"""
+    out = ''
+    for _ in range(n):
+        r = rng.random()
+        if r < 0.4:
+            p = rng.choice(S.safe_pieces)
+        elif r < 0.6:
+            p = rng.choice(S.safe_pieces)
+            p = p[:rng.randrange(len(p) + 1)]
+        else:
+            p = garbage(rng, rng.randrange(1, 14), S.safe_alphabet)
+        out += p + rng.choice([S.term, '', '', '\r', '\n'] if S is not MSSim else ['\r\n', '\n\r', '', '', '\r', '\n'])
+    return out
+
+
+def oracle_c03(ctx, S):
+    """after any history the terminator leaves the framer idle; idle discards what cannot start a command;
+    the next command is answered as on a fresh parser"""
+    rng = ctx.rng
+    n = ctx.n(120, 1500)
+    checked = 0
+    for _ in range(n):
+        s = S(rng)
+        h = safe_history(rng, S, rng.randrange(0, 8))
+        if S is MSSim:
+            term = rng.choice(['\r\n', '\n\r'])
+        elif S is TPSim:
+            term = rng.choice(['\n', '\r'])
+        else:
+            term = '\n'
+        w = dict(sim=S.name, kind='c03', history=hexs(h), term=hexs(term))
+        snap0 = s.snap()
+        s.feed(h + term)
+        checked += 1
+        if s.system.msg != '':
+            ctx.fail('%s_not_idle_after_terminator' % S.name, 'receive buffer not empty after the terminator', w)
+            s.close()
+            continue
+        b = rng.choice(S.non_start)
+        snap1 = s.snap()
+        o = s.feed(b)[0]
+        expect = ('R', 'NAK unknown command\r\n') if S is DBSim else ('F',)
+        if o != expect or s.system.msg != '' or s.snap() != snap1:
+            ctx.fail('%s_idle_does_not_discard' % S.name, 'idle parser did not discard a byte that cannot start a command',
+                     dict(w, byte=ord(b), got=repr(o)))
+        if snap1 != snap0:
+            ctx.fail('%s_safe_history_changed_state' % S.name, 'refused / truncated input changed the device state', w)
+        # probe: same answer as a fresh instance with the same initial registers and clock
+        if S is MSSim:
+            probe = S.probe
+            o1 = s.feed(probe)
+            rep = o1[-1]
+            now = s.d.now()
+            want_prefix = '?getstatus:7=1> %d,4,FFFF,3,' % now
+            ok = rep[0] == 'R' and rep[1].startswith(want_prefix) and all(x == ('T',) for x in o1[:-1])
+        else:
+            o1 = s.feed(S.probe)
+            rep = o1[-1]
+            if S is TPSim:
+                f = S(rng, like=s)
+                o2 = f.feed(S.probe)
+                # the time triple is an input: compare everything after the third field
+                ok = (rep[0] == 'R' and o2[-1][0] == 'R'
+                      and rep[1].split(' ')[3:] == o2[-1][1].split(' ')[3:])
+            else:
+                ok = rep == ('R', 'ACK\nBOARD 1 default\n\nBOARD 2 default\n\nBOARD 3 default\n\nBOARD 4 default\r\n')
+            ok = ok and all(x == ('T',) for x in o1[:-1])
+        if not ok:
+            ctx.fail('%s_probe_after_resync' % S.name, 'probe query after resynchronisation not answered as on a fresh parser',
+                     dict(w, got=repr(rep)))
+        s.close()
+    ctx.oracle_stats['%s_c03_checked' % S.name] = checked
+    ctx.evaluations += checked
+
+
+def replay_c03(ctx, obj, S):
+    w = obj.get('witness', {})
+    if w.get('sim') != S.name or w.get('kind') != 'c03':
+        return False
+    s = S(ctx.rng)
+    s.feed(bytes.fromhex(w['history']).decode('latin-1') + bytes.fromhex(w['term']).decode('latin-1'))
+    bad = s.system.msg != ''
+    s.close()
+    return bad
+
+
+# ---------------------------------------------------------------------------
+# C02 / C04 / C05 oracles
+
+def _queries_answered(ctx, S, s, w, qs):
+    """feed each query (with terminator) and require T..T R"""
+    for q in qs:
+        term = S.term if S is not MSSim else '\r\n'
+        o = s.feed(q + term)
+        ctx.evaluations += 1
+        last = o[-1]
+        if last[0] != 'R' or any(x != ('T',) for x in o[:-1]):
+            kind = last[1] if last[0] == 'X' else last[0]
+            ctx.fail('%s_query_%s' % (S.name, kind), 'catalogue query not answered with exactly one reply',
+                     dict(w, query=hexs(q + term), got=repr(last)))
+            return False
+    return True
+
+
+C02_DIRECTED = {
+    'mscu': [('#clean:0=1\r\n#clean:0=1\r\n', '#getpos:0=1'),
+             ('#setpos:0=2,%d,0,0,5\r\n' % (10 ** 400), '#getpos:0=2')],
+    'dbesm': [('DBE SETSTATUS BOARD 1 VALUE -1\r\n', 'DBE ReadDIAG BOARD 1'),
+              ('DBE SETSTATUS BOARD 4 VALUE -7\r\n', 'DBE ReadALLDIAG')],
+    'totalpower': [('S 0\nX 0 1 1 h 5\nresume\n', '?')],
+}
+
+
+def oracle_c02(ctx, S):
+    rng = ctx.rng
+    n = ctx.n(40, 600)
+    for hist, q in C02_DIRECTED[S.name]:
+        s = S(rng)
+        s.feed(hist)
+        _queries_answered(ctx, S, s, dict(sim=S.name, kind='c02', history=hexs(hist)), [q])
+        s.close()
+    for _ in range(n):
+        s = make_history(rng, S, 'general', rng.randrange(1, 16))
+        if not s.in_domain():
+            s.close()
+            continue
+        hist = s.data if S is not MSSim else None
+        s.feed(S.term if S is not MSSim else rng.choice(['\r\n', '\n\r']))
+        qs = list(S.queries)
+        rng.shuffle(qs)
+        w = dict(sim=S.name, kind='c02', history=hexs(hist) if hist is not None else 'events:' + ' '.join(s.d.evs))
+        _queries_answered(ctx, S, s, w, qs[:12])
+        s.close()
+
+
+def replay_c02(ctx, obj, S):
+    w = obj.get('witness', {})
+    if w.get('sim') != S.name or w.get('kind') != 'c02' or w.get('history', '').startswith('events:'):
+        return False
+    s = S(ctx.rng)
+    s.feed(bytes.fromhex(w['history']).decode('latin-1'))
+    o = s.feed(bytes.fromhex(w['query']).decode('latin-1'))
+    s.close()
+    return o[-1][0] != 'R'
+
+
+def oracle_c04(ctx, S):
+    """every reply: terminator, single-byte code points, request identity where the protocol has one"""
+    import re
+    rng = ctx.rng
+    n = ctx.n(40, 600)
+    for _ in range(n):
+        s = make_history(rng, S, rng.choice(['general', 'queries', 'framing']), rng.randrange(1, 16))
+        s.close()
+        reqs = list(s.d.msgs) if S is MSSim else None
+        k = 0
+        for o in s.outs:
+            if o[0] != 'R':
+                if S is MSSim and o[0] in ('V', 'X'):
+                    pass
+                continue
+            r = o[1]
+            ctx.evaluations += 1
+            w = dict(sim=S.name, kind='c04', reply=hexs(r) if all(ord(c) < 256 for c in r) else repr(r))
+            if any(ord(c) > 255 for c in r):
+                ctx.fail('%s_reply_not_latin1' % S.name, 'reply has a code point above 255', w)
+            if S is TPSim:
+                if not (r.endswith('\n') or r == s.system.firmware_string):
+                    ctx.fail('totalpower_reply_terminator', 'reply without line terminator', w)
+            else:
+                if not r.endswith('\r\n'):
+                    ctx.fail('%s_reply_terminator' % S.name, 'reply does not end with CR LF', w)
+            if S is MSSim:
+                for line in r.split('\r\n')[:-1]:
+                    if not re.match(r'^[?@!](NAK_)?[a-z0-9]+:-?\d+=\d', line):
+                        ctx.fail('mscu_reply_identity', 'reply line does not start with name:number=address', w)
+        if S is MSSim:
+            # the reply to each completed request names the command, number and address of that request
+            it = iter(s.d.msgs)
+            for o in [x for x in s.outs if x[0] in ('R', 'V', 'X')]:
+                m = next(it, None)
+                if m is None or o[0] != 'R':
+                    continue
+                try:
+                    body = m[1:].rstrip()
+                    whole, ps = body.split('=')
+                    name, num = whole.split(':')
+                    head = '%s:%d=' % (name, int(num))
+                except Exception:   # noqa
+                    continue
+                if head not in o[1]:
+                    ctx.fail('mscu_reply_identity', 'reply does not echo command name and number of its request',
+                             dict(sim='mscu', kind='c04', request=hexs(m), reply=hexs(o[1])))
+
+
+def replay_generic(ctx, obj, S):
+    return False
+
+
+def _ack(S, o):
+    if o[0] != 'R':
+        return False
+    if S is TPSim:
+        return o[1] == 'ack\n'
+    if S is DBSim:
+        return o[1] == 'ACK\r\n'
+    return o[1].startswith('?setpos') or o[1].startswith('?stow') or o[1].startswith('?clean')
+
+
+def oracle_c05(ctx, S):
+    rng = ctx.rng
+    n = ctx.n(60, 800)
+    for _ in range(n):
+        s = make_history(rng, S, 'general', rng.randrange(0, 10) + 1)
+        if not s.in_domain():
+            s.close()
+            continue
+        s.feed(S.term if S is not MSSim else '\r\n')
+        pre = s.data if S is not MSSim else 'events:' + ' '.join(s.d.evs)
+        before = s.snap()
+        ctx.evaluations += 1
+        if S is TPSim:
+            b = rng.choice(list(range(1, s.channels + 1)) + [0, s.channels + 1])
+            src = rng.choice(['B', 'P', 'G', 'Z', 'Q'])
+            a = rng.choice(list(range(16)) + [16, -1])
+            f = rng.choice([1, 2, 3, 4, 0, 5])
+            cmd = 'A %d %s %d %d\n' % (b, src, a, f)
+            o = s.feed(cmd)[-1]
+            w = dict(sim=S.name, kind='c05', history=hexs(pre), write=hexs(cmd))
+            if _ack(S, o):
+                for _k in range(rng.randrange(0, 4)):
+                    s.feed(rng.choice(['?\n', 'N 1\n', 'S 40\n', 'M 0\n', 'V\n', 'A %d B 1 1\n' % (b % s.channels + 1
+                                       if s.channels > 1 else 99), 'garbage\n', 'A 1 B\n']))
+                r = s.feed('?\n')[-1]
+                fields = r[1].rstrip('\r\n').split(' ')[7:] if r[0] == 'R' else []
+                want = [{'B': 'BWG', 'P': 'PRIM', 'G': 'GREG', 'Z': '50_OHM'}[src], str(a),
+                        str({1: 2000, 2: 1250, 3: 730, 4: 300}[f])]
+                if fields[3 * (b - 1):3 * b] != want:
+                    ctx.fail('totalpower_readback', 'acknowledged A not read back by ?', dict(w, got=repr(r)))
+            elif s.snap() != before:
+                ctx.fail('totalpower_refused_write_changed_state', 'refused write changed the registers', w)
+        elif S is DBSim:
+            bn = rng.choice(['1', '2', '3', '4', '4', '0', '5', 'x'])
+            kind = rng.choice(['ATT', 'AMP', 'EQ', 'BPF', 'STATUS', 'DBEAMP', 'DBEATT'])
+            if kind == 'ATT':
+                c = rng.choice([str(i) for i in range(17)] + ['17', '-1'])
+                v = rng.choice(['%g' % (rng.randrange(64) / 2)] * 6 + ['32', '0.3', '-1', 'nan', 'x', '31.5', '0'])
+                cmd = 'DBE SETATT %s BOARD %s VALUE %s\r\n' % (c, bn, v)
+            elif kind in ('AMP', 'EQ'):
+                c = rng.choice([str(i) for i in range(1, 11)] + ['0', '11'])
+                v = rng.choice(['0', '1', '0', '1', '1.0', '2', '1e0', 'x', '-0', '+1', '0.5'])
+                cmd = 'DBE SET%s %s BOARD %s VALUE %s\r\n' % (kind, c, bn, v)
+            elif kind == 'BPF':
+                c = rng.choice(['2', '3', '9', '10', '1a', '1b', '1', '11', 'a1'])
+                v = rng.choice(['0', '1', '0', '1', '1.0', '2', 'x'])
+                cmd = 'DBE SETBPF %s BOARD %s VALUE %s\r\n' % (c, bn, v)
+            elif kind == 'STATUS':
+                v = rng.choice(['0', '2', '1', 'x', '-1'])
+                cmd = 'DBE SETSTATUS BOARD %s VALUE %s\r\n' % (bn, v)
+            elif kind == 'DBEAMP':
+                v = rng.choice(['0', '1'])
+                cmd = 'DBE SETDBEAMP 1_DBBC2 %s\r\n' % v
+            else:
+                v = rng.choice(['%g' % (rng.randrange(64) / 2), '+3', '-3', '40'])
+                cmd = 'DBE SETDBEATT SARDA_14 %s\r\n' % v
+            o = s.feed(cmd)[-1]
+            w = dict(sim=S.name, kind='c05', history=hexs(pre), write=hexs(cmd))
+            if kind in ('DBEAMP', 'DBEATT'):
+                if kind == 'DBEAMP' and o[0] == 'R' and o[1].endswith('ACK\r\n'):
+                    r = s.feed('DBE GETDBEAMP 1_DBBC2\r\n')[-1]
+                    if r[0] == 'R' and not r[1].endswith('VALUE %s\r\n' % v):
+                        ctx.fail('dbesm_dbe01_float_rendering',
+                                 'SETDBEAMP/EQ/BPF store a float: the value reads back as 1.0 / 0.0, not as the 1 / 0 '
+                                 'the register shows initially and after SETAMP', dict(w, got=repr(r)))
+                s.close()
+                continue
+            if _ack(S, o):
+                if kind == 'ATT':
+                    r = s.feed('DBE GETSTATUS BOARD %s\r\n' % bn)[-1]
+                    atts = r[1].split('ATT=[ ')[1].split(' ]')[0].split('  ') if r[0] == 'R' and 'ATT=[' in r[1] else []
+                    if not atts or atts[int(c)] != str(float(v)):
+                        ctx.fail('dbesm_att_readback', 'acknowledged SETATT not read back', dict(w, got=repr(r)))
+                elif kind in ('AMP', 'EQ', 'BPF'):
+                    r = s.feed('DBE GETCOMP BOARD %s\r\n' % bn)[-1]
+                    if c in ('1a', '1b'):
+                        idx = 0 if c == '1a' else 1
+                    else:
+                        idx = int(c) if kind == 'BPF' else int(c) - 1
+                    vals = r[1].split('%s=[ ' % kind)[1].split(' ]')[0].split(' ') if r[0] == 'R' else []
+                    want = '1' if float(v) == 1 else '0'
+                    if not vals or vals[idx] != want:
+                        if vals and vals[idx] == v:
+                            ctx.fail('dbesm_set01_token_stored_verbatim',
+                                     'SETAMP/SETEQ/SETBPF store the request token: the read-back is the token as sent '
+                                     '(1.0, 1e0, -0, +1), not the canonical 1 / 0', dict(w, got=repr(r)))
+                        else:
+                            ctx.fail('dbesm_01_readback', 'acknowledged write not read back', dict(w, got=repr(r)))
+                elif kind == 'STATUS':
+                    if s.system.boards[int(bn) - 1]['Status'] != int(v):
+                        ctx.fail('dbesm_status_readback', 'acknowledged SETSTATUS not stored', w)
+            elif s.snap() != before:
+                ctx.fail('dbesm_refused_write_changed_state', 'refused write changed the device state', dict(w, got=repr(o)))
+        else:
+            a = rng.choice([0, 1, 2, 3])
+            axes = MS_AXES[a]
+            nparams = rng.choice([axes + 3] * 4 + [axes + 2, axes + 4, 1])
+            vals = [rng.choice(['0', '5', '-3', '1.5', '2730.15', '0x10', '100', '-0.25']) for _ in range(max(0, nparams - 1))]
+            if rng.random() < 0.2:
+                s.d.set_nak(True)
+                before = s.snap()
+            cmd = '#setpos:3=%d,%s\r\n' % (a, ','.join(['0'] + vals))
+            o = s.feed(cmd)[-1]
+            w = dict(sim=S.name, kind='c05', history=pre, write=hexs(cmd))
+            if _ack(S, o):
+                for _k in range(rng.randrange(0, 3)):
+                    s.d.tick(rng.choice([0.5, 2.0]))
+                    s.feed(rng.choice(['#getstatus:0=%d\r\n' % a, '#setup:0=%d\r\n' % a, '#getpos:0=%d\r\n' % ((a + 1) % 4),
+                                       '#setpos:0=%d,1\r\n' % a, '#foo:0=1\r\n', 'garbage\r\n']))
+                r = s.feed('#getpos:9=%d\r\n' % a)[-1]
+                want = []
+                for t in vals[-axes:]:
+                    want.append(str(int(t, 16)) if 'x' in t else (repr(float(t)) if '.' in t else str(int(t))))
+                got = r[1].rstrip('\r\n').split(',')[1:] if r[0] == 'R' else None
+                future = any(e[0] > s.d.now() for e in s.system.servos[a].history.history)
+                if got != want and not future:
+                    ctx.fail('mscu_setpos_readback', 'acknowledged setpos (stamped now) not read back by getpos',
+                             dict(w, got=repr(r), want=want))
+            elif s.snap() != before:
+                ctx.fail('mscu_refused_setpos_changed_state', 'refused setpos changed a history', w)
+        s.close()
+
+
+def replay_c05(ctx, obj, S):
+    w = obj.get('witness', {})
+    if w.get('sim') != S.name or w.get('kind') != 'c05' or S is MSSim:
+        return False
+    n0 = len(ctx.failures)
+    s = S(ctx.rng)
+    s.feed(bytes.fromhex(w['history']).decode('latin-1'))
+    before = s.snap()
+    o = s.feed(bytes.fromhex(w['write']).decode('latin-1'))[-1]
+    changed = (not _ack(S, o)) and s.snap() != before
+    s.close()
+    return changed or obj.get('klass', '').endswith(('rendering', 'verbatim'))
